@@ -285,6 +285,7 @@ func TestCheck(t *testing.T) {
 	rec.Note("rule", "a case is one scenario against the real SPIFFE object in a synctest bubble with a scripted issuer signing real SVIDs: (order) each of the six first-call orders of Run / Ready / GetX509SVID from separate goroutines x initial fetch succeeding or failing x consumer additionally parked inside GetX509SVID while it holds the read lock; (renewal) a seeded script of 3-8 issuer outcomes (validity windows from 2 s to 30 days, already past half-life, expired, not yet valid; failures) with the virtual clock advanced in seeded steps of seconds to hours, optionally writing the identity to a directory and rotating the trust anchors. Non-trivial = the issuer received at least one request; distinct = distinct scenario description.")
 	rec.Note("require", []string{"order.get_first", "order.ready_first", "order.run_first", "order.initial_fetch_failed", "order.consumer_parked_with_rlock", "renewal.requests", "renewal.on_time", "renewal.retry_after_failure", "renewal.served_latest_checked", "renewal.fresh_keys_checked", "files.sets_checked"})
 	ps := plans()
+	rec.Planned(len(ps))
 	for idx, pl := range ps {
 		if !mon.Mine(idx) {
 			continue
